@@ -1051,9 +1051,13 @@ impl RData {
     /// Parse the RData from a set of Tokens
     pub(crate) fn from_tokens<'i, I: Iterator<Item = &'i str>>(
         record_type: RecordType,
-        tokens: I,
+        mut tokens: I,
         origin: Option<&Name>,
     ) -> Result<Self, ParseError> {
+        // the per-type parsers take what their format defines from the shared iterator: what
+        // is left afterwards does not belong to the record
+        let mut surplus = tokens.by_ref();
+        let tokens = &mut surplus;
         let rdata = match record_type {
             RecordType::A => Self::A(A::from_tokens(tokens)?),
             RecordType::AAAA => Self::AAAA(AAAA::from_tokens(tokens)?),
@@ -1120,6 +1124,10 @@ impl RData {
                 return Err(ParseError::UnsupportedRecordType(r));
             }
         };
+
+        if surplus.next().is_some() {
+            return Err(ParseError::Message("surplus tokens after the RDATA"));
+        }
 
         Ok(rdata)
     }
